@@ -8,6 +8,7 @@ package main
 import (
 	"math"
 	"regexp"
+	"strings"
 	"unicode/utf8"
 
 	"github.com/pentops/j5/lib/id62"
@@ -69,10 +70,19 @@ func isTrue(b *bool) bool { return b != nil && *b }
 
 // enum option number by (short or prefixed) name; 0 when unknown
 func optionNumber(env EnumEnv, name string) int64 {
+	full := func(n string) string {
+		if !strings.HasPrefix(n, env.Prefix) {
+			return env.Prefix + n
+		}
+		return n
+	}
 	for i, o := range env.Options {
-		if name == o || name == env.Prefix+o {
+		if full(name) == full(o) {
 			return int64(i + 1)
 		}
+	}
+	if env.Unspecified != "" && full(name) == full(env.Unspecified) {
+		return 0 // the explicit zero option
 	}
 	return -1
 }
